@@ -337,7 +337,7 @@ def run_story_side(ctx, cases, std_exe, stream_exe, facts):
                 ia = ar.get("audit")
                 if ia == "panic":
                     # the hook panics while describing an object (origin-less list item): the model marks the line
-                    if not any(l.startswith("!panic") for l in ml):
+                    if not any("!panic" in l for l in ml):
                         mismatches.append(dict(case=strip_case(cases[i]), impl="audit panics", model="no !panic line"))
                     continue
                 if not isinstance(ia, list):
